@@ -300,3 +300,238 @@ echo "end-$WHO" >> "$VTRACE"`})
 		box.Remove()
 	}
 }
+
+// c10StalledHolder: three REAL processes on one workspace. Build A's output goes to a small pipe whose reader stops
+// reading once it has seen the summary line that A prints after its last command (a pager, a stalled log collector, a
+// terminal in XOFF): A sits in a write between the end of its execution and its exit. B has been waiting for the lock
+// since A's command ran; C is started after A has exited. At no moment may two of the three commands be between their
+// start and end lines (observed in the trace written by the commands themselves; wall-clock time only bounds how long
+// an overlap is waited for), and each waiter gets the lock in the end.
+func c10StalledHolder(c *Ctx) {
+	grog, err := vc.BuildGrog("grog", nil)
+	if err != nil {
+		c.R.BrokenCheck("%v", err)
+		return
+	}
+	base, cleanup := scratchBase(c, "c10s")
+	defer cleanup()
+	const name = "holder stalls on its own output after its last command; a waiter and a third build"
+	// a chain with long names: the debug line naming the critical path is larger than the pipe
+	src := &hist.Source{Files: map[string]hist.File{"p/in.txt": {Content: "in"}}, Toml: "num_workers = 2\n"}
+	prev := ""
+	for i := 0; i < 100; i++ {
+		n := fmt.Sprintf("t%03d_%s", i, strings.Repeat("x", 110))
+		t := hist.Target{Pkg: "p", Name: n, Inputs: []string{"in.txt"}, Command: "true", Tags: []string{"no-cache"}}
+		if prev != "" {
+			t.Deps = []string{":" + prev}
+		}
+		src.Targets = append(src.Targets, t)
+		prev = n
+	}
+	src.Targets = append(src.Targets, hist.Target{Pkg: "p", Name: "hold", Deps: []string{":" + prev}, Tags: []string{"no-cache"}, Command: `echo "start-$WHO" >> "$VTRACE"
+while [ ! -e "$VMARK/go-$WHO" ]; do sleep 0.05; done
+echo "end-$WHO" >> "$VTRACE"`})
+	box, err := hist.NewBox(base)
+	if err != nil {
+		c.R.BrokenCheck("%v", err)
+		return
+	}
+	defer box.Remove()
+	src.Materialize(box.WS(), nil)
+	marks := filepath.Join(box.Dir, "marks")
+	os.MkdirAll(marks, 0o755)
+	os.WriteFile(box.Trace(), nil, 0o644)
+	environ := func(who string) []string {
+		var env []string
+		for k, v := range map[string]string{"PATH": os.Getenv("PATH"), "HOME": filepath.Join(box.Dir, "home"), "GROG_ROOT": box.Root(), "GROG_DISABLE_TEA": "true", "GROG_COLOR": "no",
+			"VTRACE": box.Trace(), "VMARK": marks, "WHO": who, "TMPDIR": os.TempDir()} {
+			env = append(env, k+"="+v)
+		}
+		return env
+	}
+	trace := func() string { b, _ := os.ReadFile(box.Trace()); return string(b) }
+	waitFor := func(line string, d time.Duration) bool {
+		deadline := time.Now().Add(d)
+		for time.Now().Before(deadline) {
+			if strings.Contains(trace(), line+"\n") {
+				return true
+			}
+			time.Sleep(50 * time.Millisecond)
+		}
+		return false
+	}
+	waitExit := func(cmd *exec.Cmd, d time.Duration) bool {
+		done := make(chan struct{})
+		go func() { cmd.Wait(); close(done) }()
+		select {
+		case <-done:
+			return true
+		case <-time.After(d):
+			syscall.Kill(-cmd.Process.Pid, syscall.SIGKILL)
+			<-done
+			return false
+		}
+	}
+	var procs []*exec.Cmd
+	release := func() {
+		for _, w := range []string{"A", "B", "C"} {
+			os.WriteFile(filepath.Join(marks, "go-"+w), nil, 0o644)
+		}
+	}
+	defer func() {
+		release()
+		for _, p := range procs {
+			syscall.Kill(-p.Process.Pid, syscall.SIGKILL)
+		}
+	}()
+	plain := func(who string) (*exec.Cmd, *bytes.Buffer) {
+		cmd := exec.Command(grog, "build", "//p:hold")
+		cmd.Dir, cmd.Env = box.WS(), environ(who)
+		var out bytes.Buffer
+		cmd.Stdout, cmd.Stderr = &out, &out
+		cmd.SysProcAttr = &syscall.SysProcAttr{Setpgid: true}
+		if cmd.Start() != nil {
+			return nil, &out
+		}
+		procs = append(procs, cmd)
+		return cmd, &out
+	}
+	// A: output through a 4 KiB pipe
+	pr, pw, err := os.Pipe()
+	if err != nil {
+		c.R.BrokenCheck("pipe: %v", err)
+		return
+	}
+	const fSetPipeSz = 1031
+	syscall.Syscall(syscall.SYS_FCNTL, pw.Fd(), fSetPipeSz, 4096)
+	a := exec.Command(grog, "build", "--debug", "//p:hold")
+	a.Dir, a.Env = box.WS(), environ("A")
+	a.Stdout, a.Stderr = pw, pw
+	a.SysProcAttr = &syscall.SysProcAttr{Setpgid: true}
+	if err := a.Start(); err != nil {
+		c.R.BrokenCheck("start A: %v", err)
+		return
+	}
+	procs = append(procs, a)
+	pw.Close()
+	stalled, resume := make(chan struct{}), make(chan struct{})
+	var amu sync.Mutex
+	var aout bytes.Buffer
+	go func() {
+		defer pr.Close()
+		buf := make([]byte, 512)
+		seen := false
+		for {
+			n, err := pr.Read(buf)
+			amu.Lock()
+			aout.Write(buf[:n])
+			hit := !seen && strings.Contains(aout.String(), "Elapsed time:")
+			amu.Unlock()
+			if hit {
+				seen = true
+				close(stalled)
+				<-resume
+			}
+			if err != nil {
+				return
+			}
+		}
+	}()
+	resumed := false
+	doResume := func() {
+		if !resumed {
+			resumed = true
+			close(resume)
+		}
+	}
+	defer doResume()
+	replay := map[string]any{"scenario": name}
+	vio := func(sig, format string, a ...any) {
+		replay["trace"] = strings.Fields(trace())
+		c.R.Violate(vc.Violation{Sig: sig, Detail: name + ": " + fmt.Sprintf(format, a...), Replay: replay})
+	}
+	overlap := func() string {
+		running := map[string]bool{}
+		for _, l := range strings.Fields(trace()) {
+			if w, ok := strings.CutPrefix(l, "start-"); ok {
+				running[w] = true
+				if len(running) > 1 {
+					return fmt.Sprint(vc.SortedKeys(running))
+				}
+			} else if w, ok := strings.CutPrefix(l, "end-"); ok {
+				delete(running, w)
+			}
+		}
+		return ""
+	}
+	if !waitFor("start-A", 120*time.Second) {
+		c.R.Cap("process scenario %q: build A did not reach its command within 120 s: scenario skipped", name)
+		return
+	}
+	b, bout := plain("B")
+	if b == nil {
+		c.R.BrokenCheck("could not start build B")
+		return
+	}
+	time.Sleep(1500 * time.Millisecond) // B is waiting for the lock by now (it polls once per second)
+	os.WriteFile(filepath.Join(marks, "go-A"), nil, 0o644)
+	select {
+	case <-stalled:
+	case <-time.After(60 * time.Second):
+		c.R.Cap("process scenario %q: build A did not print its summary within 60 s of its last command: scenario skipped", name)
+		return
+	}
+	// A sits in a write after its execution for three seconds (B polls the lock once per second), then it is allowed to exit
+	time.Sleep(3 * time.Second)
+	replay["b_started_while_a_was_stalled"] = strings.Contains(trace(), "start-B\n")
+	doResume()
+	if !waitExit(a, 60*time.Second) {
+		vio("C10:holder-does-not-exit", "build A did not exit within 60 s after its output was read again")
+		return
+	}
+	cc, cout := plain("C")
+	if cc == nil {
+		c.R.BrokenCheck("could not start build C")
+		return
+	}
+	// whichever of B and C gets the lock first (no order is promised), the other one waits for it
+	waitEither := func(d time.Duration) string {
+		deadline := time.Now().Add(d)
+		for time.Now().Before(deadline) {
+			t := trace()
+			for _, w := range []string{"B", "C"} {
+				if strings.Contains(t, "start-"+w+"\n") {
+					return w
+				}
+			}
+			time.Sleep(50 * time.Millisecond)
+		}
+		return ""
+	}
+	first := waitEither(60 * time.Second)
+	if first == "" {
+		vio("C10:waiter-never-acquires:after-release", "build A exited 60 s ago but neither build B nor build C has acquired the lock: B: %s | C: %s", tail(bout.String(), 200), tail(cout.String(), 200))
+		return
+	}
+	second := map[string]string{"B": "C", "C": "B"}[first]
+	// the other one must wait: an overlap is a violation only when it is observed
+	waitFor("start-"+second, 4*time.Second)
+	if o := overlap(); o != "" {
+		vio("C10:two-builds-run-at-the-same-time", "the commands of builds %s were running at the same time (both processes are past lock acquisition); output of B: %s | of C: %s", o, tail(bout.String(), 200), tail(cout.String(), 200))
+		return
+	}
+	os.WriteFile(filepath.Join(marks, "go-"+first), nil, 0o644)
+	waitExit(map[string]*exec.Cmd{"B": b, "C": cc}[first], 60*time.Second)
+	if !waitFor("start-"+second, 60*time.Second) {
+		vio("C10:waiter-never-acquires:after-release", "build %s exited 60 s ago but build %s has not acquired the lock: B: %s | C: %s", first, second, tail(bout.String(), 200), tail(cout.String(), 200))
+		return
+	}
+	os.WriteFile(filepath.Join(marks, "go-"+second), nil, 0o644)
+	waitExit(map[string]*exec.Cmd{"B": b, "C": cc}[second], 60*time.Second)
+	if o := overlap(); o != "" {
+		vio("C10:two-builds-run-at-the-same-time", "the commands of builds %s were running at the same time", o)
+	}
+	c.R.AddCounts(1, 1, 3, 1)
+	c.R.Outcome("process|" + name)
+	c.R.Nontrivial("process|" + name)
+}
